@@ -196,8 +196,6 @@ def main(argv=None):
             if meta is None:
                 continue
             c = S.case_of(meta['text'], meta['v'], meta['lvl'], meta['ec'])
-            if c['code'] == 30:
-                continue    # STRICT rejection of a DT/TM/NM/SI value: the datatype layer is C13's model
             cases.append(c)
     finally:
         hl7apy.set_default_version(saved[0])
